@@ -386,3 +386,86 @@ Proof.
   cbn [fold_left]. rewrite H by (left; reflexivity). apply IH. intros; apply H; right; assumption.
 Qed.
 
+
+(* ================= Model.getsatcellmaps in named pieces ================= *)
+Section Gsm.
+  Variable T : tables.
+  Definition gsm_sats (df394:Z) : list Z := filter (fun idx => Z.testbit df394 (64 - idx)) (zrange 65).
+  Definition gsm_satlab (prnmap:list (Z*string)) (idx:Z) : string := match zassoc idx prnmap with Some s => s | None => t_na T end.
+  Definition gsm_satlabels prnmap df394 : list string := map (gsm_satlab prnmap) (gsm_sats df394).
+  Definition gsm_sigids (df395:Z) : list Z := filter (fun idx => Z.testbit df395 (32 - idx)) (zrange 33).
+  Definition gsm_siglab (sigmap:list (Z*(string*string))) (sigcode:bool) (idx:Z) : string :=
+    let sgc := match zassoc idx sigmap with Some p => p | None => (t_na T, t_na T) end in if sigcode then snd sgc else fst sgc.
+  Definition gsm_sigs sigmap sigcode df395 : list string := map (gsm_siglab sigmap sigcode) (gsm_sigids df395).
+  Definition gsm_pairs (satlabels sigs:list string) : list (string*string) := flat_map (fun s => map (fun g => (s, g)) sigs) satlabels.
+  Definition gsm_hits (satlabels sigs:list string) (df396:Z) : list (string*string) :=
+    let ncells := Z.of_nat (List.length satlabels) * Z.of_nat (List.length sigs) in
+    map snd (filter (fun '(idx, _) => Z.testbit df396 (ncells - idx)) (number (gsm_pairs satlabels sigs))).
+  Definition gsm_result (o:obj) prnmap sigmap df394 df395 df396 : obj :=
+    let sl := gsm_satlabels prnmap df394 in
+    let sg := gsm_sigs sigmap (negb (o_labelmsm o =? 2)) df395 in
+    with_maps o (number sl) (number (gsm_hits sl sg df396)).
+
+  Lemma getsatcellmaps_eq ident o :
+    getsatcellmaps T ident o =
+    match assoc (substring 0 3 ident) (t_prnsig T) with
+    | None => Foreign XKey
+    | Some (prnmap, sigmap) =>
+        do df394 <- getint o "DF394"; do df395 <- getint o "DF395"; do df396 <- getint o "DF396";
+        Ok (gsm_result o prnmap sigmap df394 df395 df396)
+    end.
+  Proof.
+    unfold getsatcellmaps. destruct (assoc (substring 0 3 ident) (t_prnsig T)) as [[pm sm]|]; [|reflexivity].
+    destruct (getint o "DF394") as [a| | |]; cbn [obind]; [|reflexivity..].
+    destruct (getint o "DF395") as [b| | |]; cbn [obind]; [|reflexivity..].
+    destruct (getint o "DF396") as [c| | |]; cbn [obind]; [|reflexivity..].
+    unfold gsm_result, gsm_hits, gsm_pairs, gsm_sigs, gsm_satlabels, gsm_sigids, gsm_sats, gsm_siglab, gsm_satlab, number. cbv zeta.
+    rewrite (map_length (@snd Z (string*string))). reflexivity.
+  Qed.
+
+  Definition gsm_ncells prnmap sigmap (sigcode:bool) (df394 df395:Z) : nat :=
+    (List.length (gsm_satlabels prnmap df394) * List.length (gsm_sigs sigmap sigcode df395))%nat.
+  (* what the source does: DF396 is read inside the nested loop only, i.e. only if some (satellite, signal) pair exists *)
+  Definition getsatcellmaps_lazy (ident:string) (o:obj) : outcome obj :=
+    match assoc (substring 0 3 ident) (t_prnsig T) with
+    | None => Foreign XKey
+    | Some (prnmap, sigmap) =>
+        do df394 <- getint o "DF394"; do df395 <- getint o "DF395";
+        do df396 <- (if Nat.eqb (gsm_ncells prnmap sigmap (negb (o_labelmsm o =? 2)) df394 df395) 0 then Ok 0 else getint o "DF396");
+        Ok (gsm_result o prnmap sigmap df394 df395 df396)
+    end.
+
+  Lemma gsm_pairs_length sl sg : List.length (gsm_pairs sl sg) = (List.length sl * List.length sg)%nat.
+  Proof.
+    unfold gsm_pairs. induction sl as [|s r IH]; [reflexivity|].
+    cbn [flat_map List.length]. rewrite app_length, map_length, IH. reflexivity.
+  Qed.
+  Lemma gsm_hits_none sl sg c c' : (List.length sl * List.length sg)%nat = 0%nat -> gsm_hits sl sg c = gsm_hits sl sg c'.
+  Proof.
+    intro H. unfold gsm_hits. pose proof (gsm_pairs_length sl sg) as L. rewrite H in L.
+    destruct (gsm_pairs sl sg); [reflexivity|discriminate].
+  Qed.
+
+  (* the only inputs on which the model (eager read) and the source (lazy read) differ *)
+  Definition lazy_same (ident:string) (o:obj) : Prop :=
+    match assoc (substring 0 3 ident) (t_prnsig T), getint o "DF394", getint o "DF395" with
+    | Some (prnmap, sigmap), Ok a, Ok b =>
+        gsm_ncells prnmap sigmap (negb (o_labelmsm o =? 2)) a b = 0%nat ->
+        exists c, getint o "DF396" = Ok c
+    | _, _, _ => True
+    end.
+  Lemma lazy_same_eq ident o : lazy_same ident o -> getsatcellmaps_lazy ident o = getsatcellmaps T ident o.
+  Proof.
+    unfold lazy_same. rewrite getsatcellmaps_eq. unfold getsatcellmaps_lazy.
+    destruct (assoc (substring 0 3 ident) (t_prnsig T)) as [[pm sm]|]; [|reflexivity].
+    destruct (getint o "DF394") as [a| | |]; cbn [obind]; [|reflexivity..].
+    destruct (getint o "DF395") as [b| | |]; cbn [obind]; [|reflexivity..].
+    intro H. destruct (Nat.eqb_spec (gsm_ncells pm sm (negb (o_labelmsm o =? 2)) a b) 0) as [E|E]; [|reflexivity].
+    destruct (H E) as [c ->]. cbn [obind]. unfold gsm_result. rewrite (gsm_hits_none _ _ 0 c E). reflexivity.
+  Qed.
+  Lemma lazy_same_int ident o c : getint o "DF396" = Ok c -> lazy_same ident o.
+  Proof.
+    intro H. unfold lazy_same. destruct (assoc _ _) as [[pm sm]|]; [|exact I].
+    destruct (getint o "DF394"); try exact I. destruct (getint o "DF395"); try exact I. intros _. eauto.
+  Qed.
+End Gsm.
